@@ -16,6 +16,13 @@ requests
   rt <tree>                                    → `<dump of import(export)>` `<dump of canon>`
   mode <m>                                     → `<mode_kind> <import class> <unusual ~|m> <exec T|F> <re-exported mode>`
   omode <f|d|l|t> <T|F>                        → `<object_mode>`
+  hist <rev>|<rev>|…                           → `<root sha>;<root sha>;…` (one per revision, `runHist` from the empty state)
+         rev = `<parents: positions joined by `.`, `-` = none>!<evicted keys `<fid>:<rev>` joined by `.`, `-` = none>!<tree>`
+  incrstat <cache> <base tree|~> <base sha|~> <others> <tree> → `<tag>=<n>;…` which branch of the incremental
+         conversion every leaf took (new, reuse-hit, reuse-miss, unch-hit, unch-miss, link-new) and `pointless=0|1`
+  reexp <store> <root sha> <fuel>              → `<expRootP of the import> <expRoot of nativeOfL of the import> <gitTreeOK T|F>` | `none`
+  impn <store> <root sha> <fuel>               → native form of the import: `<path>|f|<content>|<T|F>|<um>` / `<path>|l|<target>|<um>` / `<path>|d` | `none`
+  items <tree>                                 → `<items of the tree> <items of canonRoot>`; item = `<path>|<f|l|d>|<data>|<T|F>`, sorted
 dump   = `<path>|f|<content>|<mode>` / `<path>|l|<target>|<mode>` / `<path>|d` joined by `;`, sorted
 -/
 namespace BreezyVerif.C35
@@ -124,6 +131,67 @@ def showKind : Option Kind → String
 def showClass : ImportClass → String
   | .tree => "tree" | .gitlink => "gitlink" | .symlink => "symlink" | .file => "file"
 
+def parseKeys (s : String) : Option (List Key) :=
+  if s == "-" then some [] else
+  (s.splitOn ".").mapM fun e =>
+    match e.splitOn ":" with
+    | [f, r] => do pure ⟨← fromHex f, ← fromHex r⟩
+    | _ => none
+
+def parseNats (s : String) : Option (List Nat) :=
+  if s == "-" then some [] else (s.splitOn ".").mapM fun e => e.toNat?
+
+def parseRev (s : String) : Option Rev :=
+  match s.splitOn "!" with
+  | [ps, ev, t] => do pure ⟨← parseNats ps, ← parseKeys ev, ← parseTree t⟩
+  | _ => none
+
+/-- which branch of `incrFile` / `incrLink` a leaf takes -/
+def leafTag (cache : Cache) (base : Option Children) (others : List Children) (path : Path) : Node → String
+  | .file k c x um =>
+    if leafChanged base path (.file k c x um) then
+      match reuseKey others k.fid c with
+      | some pk => if (cache.get pk).isSome then "reuse-hit" else "reuse-miss"
+      | none => "new"
+    else if (cache.get k).isSome then "unch-hit" else "unch-miss"
+  | .link k t um =>
+    if leafChanged base path (.link k t um) then "link-new"
+    else if (cache.get k).isSome then "unch-hit" else "unch-miss"
+  | .dir _ => "dir"
+
+mutual
+def tagsNode (cache : Cache) (base : Option Children) (others : List Children) (path : Path) : Node → List String
+  | .dir cs => tagsChildren cache base others path cs
+  | n => [leafTag cache base others path n]
+def tagsChildren (cache : Cache) (base : Option Children) (others : List Children) (path : Path) : Children → List String
+  | .nil => []
+  | .cons name n rest =>
+    if banned name then tagsChildren cache base others path rest
+    else tagsNode cache base others (path ++ [name]) n ++ tagsChildren cache base others path rest
+end
+
+def tagNames : List String := ["new", "reuse-hit", "reuse-miss", "unch-hit", "unch-miss", "link-new"]
+
+def showTags (tags : List String) (pointless : Bool) : String :=
+  ";".intercalate ((tagNames.map fun t => s!"{t}={(tags.filter (· == t)).length}") ++
+    [s!"pointless={if pointless then 1 else 0}"])
+
+mutual
+def dumpN (pre : Path) : Node → List String
+  | .file _ c x um => [s!"{showPath pre}|f|{toHex c}|{showBool x}|{showOptNat um}"]
+  | .link _ t um => [s!"{showPath pre}|l|{toHex t}|{showOptNat um}"]
+  | .dir cs => s!"{showPath pre}|d" :: dumpNC pre cs
+def dumpNC (pre : Path) : Children → List String
+  | .nil => []
+  | .cons n x rest => dumpN (pre ++ [n]) x ++ dumpNC pre rest
+end
+
+def showItem (i : Item) : String :=
+  let k := match i.kind with | .file => "f" | .link => "l" | .dir => "d"
+  s!"{showPath i.path}|{k}|{toHex i.data}|{showBool i.exec}"
+
+def showItems (l : List Item) : String := joinSemi (sortStrings (l.map showItem))
+
 def handle : List String → String
   | ["exp", t] =>
     match parseTree t with
@@ -154,6 +222,38 @@ def handle : List String → String
         | some cs => showDump cs
         | none => "none"
       s!"{back} {showDump (canonRoot gitId t)}"
+    | none => "bad-op"
+  | ["hist", h] =>
+    match (h.splitOn "|").mapM parseRev with
+    | some revs => joinSemi ((runHist gitId HState.empty revs).roots.map toHex)
+    | none => "bad-op"
+  | ["incrstat", cache, base, bsha, others, t] =>
+    match parseCache cache, parseTrees others, parseTree t with
+    | some cache, some others, some t =>
+      if base == "~" && bsha == "~" then showTags (tagsChildren cache none others [] t) false
+      else
+        match parseTree base, fromHex bsha with
+        | some b, some _ =>
+          if sameGitC b t then showTags [] true else showTags (tagsChildren cache (some b) others [] t) false
+        | _, _ => "bad-op"
+    | _, _, _ => "bad-op"
+  | ["reexp", st, root, fuel] =>
+    match parseStore st, fromHex root, fuel.toNat? with
+    | some st, some root, some fuel =>
+      match impRoot st fuel root with
+      | some cs => s!"{toHex (expRootP gitId cs)} {toHex (expRoot gitId (nativeOfL cs))} {showBool (gitTreeOK st fuel root)}"
+      | none => "none"
+    | _, _, _ => "bad-op"
+  | ["impn", st, root, fuel] =>
+    match parseStore st, fromHex root, fuel.toNat? with
+    | some st, some root, some fuel =>
+      match impRoot st fuel root with
+      | some cs => joinSemi (sortStrings (dumpNC [] (nativeOfL cs)))
+      | none => "none"
+    | _, _, _ => "bad-op"
+  | ["items", t] =>
+    match parseTree t with
+    | some t => s!"{showItems (itemsNC [] t)} {showItems (itemsPL [] (canonRoot gitId t))}"
     | none => "bad-op"
   | ["mode", m] =>
     match m.toNat? with
